@@ -302,6 +302,27 @@ func GridCases(thorough bool) []WriteCase {
 			add(0, model.StrV(strings.Repeat("y", L)).WithAnn(model.T("a")))
 		}
 	}
+	// nested payloads: the encoded size of an inner container or wrapper crosses each boundary of the
+	// binary length encoding (14, 2^7, 2^14, 2^21) while an outer container has to account for it
+	for _, B := range []int{14, 128, 16384, 2097152} {
+		for delta := -7; delta <= 2; delta++ {
+			L := B + delta
+			if L < 0 {
+				continue
+			}
+			nested := [][]*model.Value{
+				{model.ListV(model.ListV(model.StrV(strings.Repeat("n", L))), model.Int64V(0)), model.SymV(model.T("after"))},
+				{model.StructV(model.SexpV(model.BlobV(bytes.Repeat([]byte{0xCD}, L))).WithField(model.T("f")).WithAnn(model.T("a")), model.Int64V(1).WithField(model.T("g"))), model.Int64V(7)},
+			}
+			for _, vs := range nested {
+				if B > 20000 {
+					out = append(out, WriteCase{CaseSeed: 1, Mode: ModeBinary, Vals: vs})
+				} else {
+					add(0, vs...)
+				}
+			}
+		}
+	}
 	// every kind x {plain, annotated} incl. typed nulls, inside each container kind
 	g := gen.New(7)
 	for _, k := range gen.AllKinds {
@@ -475,7 +496,7 @@ func replayWrite(judge func(WriteCase, []byte) string) func(c *Ctx, v *Violation
 
 func init() {
 	Register(&Monitor{ID: "C01", Run: func(c *Ctx) {
-		c.Rule = "seeded boundary-biased value streams written through the Writer API in 4 modes (text, pretty, pretty+quiet, binary) and read back by ion-go's Reader; plus a deterministic boundary grid. Non-trivial: stream has >=2 values or a container and carries a boundary/reserved-text/annotation/typed-null feature; distinct by (mode, canonical model text)."
+		c.Rule = "seeded boundary-biased value streams written through the Writer API in 4 modes (text, pretty, pretty+quiet, binary) and read back by ion-go's Reader; the same streams also through writers constructed with one or two shared symbol tables (readers given the catalog) and/or finished in several batches (Finish after every 1..3 top-level values); plus a deterministic boundary grid (incl. nested payloads whose encoded size crosses 14, 2^7, 2^14 and 2^21, and streams that resemble symbol tables and version markers without being any). Non-trivial: stream has >=2 values or a container and carries a boundary/reserved-text/annotation/typed-null feature; distinct by (mode, canonical model text)."
 		c.Assume("model.Diff implements Ion data-model equivalence; the driver makes only legal Writer calls")
 		runWriteMonitor(c, "roundtrip", judgeC01)
 	}, Replay: replayWrite(judgeC01)})
